@@ -216,4 +216,251 @@ theorem wellFormed_no_cpu_subgraph_witness : ∃ d m, write d = .ok m ∧ wellFo
   · decide +kernel
   · decide +kernel
 
+/-! ## metadata -/
+
+/-- the relations `conforms` reads off the file are explained by the writer's tensor lists: as many as subgraphs, each with
+    the table length, every pair (graph tensor g, file index i) has `all[i] = g` -/
+def RelsOk (maps : List (List Nat)) (rels : List (Rel × Nat)) : Prop :=
+  List.Forall₂ (fun (all : List Nat) (r : Rel × Nat) => r.2 = all.length ∧ ∀ p ∈ r.1, all[p.2]? = some p.1) maps rels
+
+/-- the entries `metadataProblems` expects -/
+def expectedMeta (d : Desc) : List (Bytes × Option (Option Data)) :=
+  d.metadata.map (fun x => (x.name, some x.data)) ++ [(velaVersionName, some (some (.raw d.version)))] ++
+    (if (d.metadata.any fun x => x.nameIsBytes && x.name == omaName) then [] else [(omaName, none)])
+
+/-- the check of a generated offline plan in `metadataProblems` -/
+def planProblems (d : Desc) (rels : List (Rel × Nat)) (bytes : List Nat) : List Problem :=
+  let v := le32 bytes
+  let total := (rels.map (·.2)).sum
+  (if v.take 3 == [0, (rels.length : Int), (total : Int)] && v.length == 3 + total && bytes.length == 4 * v.length then []
+   else [⟨"offline-plan-header", s!"{v.take 3} length {v.length}"⟩]) ++
+  (rels.zipIdx.flatMap fun ((r, _), k) =>
+    let base := 3 + ((rels.take k).map (·.2)).sum
+    r.filterMap fun (g, i) =>
+      match d.tensors[g]?, v[base + i]? with
+      | some gt, some off =>
+        let want : Int := if isScratchMem gt then gt.address.getD 0 else -1
+        if off == want then none else some ⟨"offline-plan-offset", s!"subgraph {k} tensor {i}: plan {off} graph {want}"⟩
+      | _, _ => some ⟨"offline-plan-offset", s!"subgraph {k} tensor {i}"⟩)
+
+/-- the check of one metadata entry in `metadataProblems` -/
+def entryProblems (d : Desc) (m : ModelT) (rels : List (Rel × Nat)) (e : Bytes × Option (Option Data)) (f : MetadataT) : List Problem :=
+  (if f.name == some e.1 then [] else [⟨"metadata-name", showName e.1⟩]) ++
+  (match m.buffers[f.buffer]? with
+   | none => [⟨"buffer-range", "metadata " ++ showName e.1⟩]
+   | some b =>
+     match e.2 with
+     | some data => if b.data == data then [] else [⟨"metadata-data", showName e.1⟩]
+     | none =>
+       match b.data with
+       | some (.raw bytes) => planProblems d rels bytes
+       | _ => [⟨"offline-plan-data", ""⟩])
+
+theorem metadataProblems_eq (d : Desc) (m : ModelT) (rels : List (Rel × Nat)) : metadataProblems d m rels =
+    (if m.metadata.length == (expectedMeta d).length then []
+     else [⟨"metadata-count", s!"expected {(expectedMeta d).length} file {m.metadata.length}"⟩]) ++
+    (((expectedMeta d).zip m.metadata).flatMap fun (e, f) => entryProblems d m rels e f) := rfl
+
+theorem forall₂_getElem? {α β : Type} {R : α → β → Prop} {l1 : List α} {l2 : List β} (h : List.Forall₂ R l1 l2) :
+    ∀ (i : Nat) (a : α) (b : β), l1[i]? = some a → l2[i]? = some b → R a b := by
+  induction h with
+  | nil => intro i a b ha; simp at ha
+  | cons hab _ ih =>
+    intro i a b ha hb
+    cases i with
+    | zero =>
+      simp only [List.getElem?_cons_zero, Option.some.injEq] at ha hb
+      subst ha; subst hb; exact hab
+    | succ i =>
+      simp only [List.getElem?_cons_succ] at ha hb
+      exact ih i a b ha hb
+
+theorem relsOk_snd {maps : List (List Nat)} {rels : List (Rel × Nat)} (h : RelsOk maps rels) :
+    rels.map (·.2) = maps.map List.length := by
+  unfold RelsOk at h
+  induction h with
+  | nil => rfl
+  | cons hab _ ih => simp only [List.map_cons, ih, hab.1]
+
+theorem relsOk_sum {maps : List (List Nat)} {rels : List (Rel × Nat)} (h : RelsOk maps rels) :
+    (rels.map (fun x => (x.2 : Int))).sum = (((maps.map List.length).sum : Nat) : Int) := by
+  unfold RelsOk at h
+  induction h with
+  | nil => rfl
+  | cons hab _ ih => simp only [List.map_cons, List.sum_cons, ih, hab.1, Int.natCast_add]
+
+theorem relsOk_get {maps : List (List Nat)} {rels : List (Rel × Nat)} (h : RelsOk maps rels) (k : Nat) (r : Rel) (n : Nat)
+    (hk : rels[k]? = some (r, n)) : ∃ all, maps[k]? = some all ∧ n = all.length ∧ ∀ p ∈ r, all[p.2]? = some p.1 := by
+  have hl : maps.length = rels.length := List.Forall₂.length_eq h
+  have hk1 : k < rels.length := (List.getElem?_eq_some_iff.mp hk).1
+  have hk2 : k < maps.length := by omega
+  have := forall₂_getElem? h k maps[k] (r, n) (List.getElem?_eq_getElem hk2) hk
+  exact ⟨maps[k], List.getElem?_eq_getElem hk2, this.1, this.2⟩
+
+theorem offsetsOf_get (ts : List TensorD) (all : List Nat) (i g : Nat) (td : TensorD) (hi : all[i]? = some g) (hg : ts[g]? = some td) :
+    (offsetsOf ts all)[i]? = some (if isScratchMem td then td.address.getD 0 else -1) := by
+  unfold offsetsOf
+  rw [List.getElem?_map, hi]
+  simp only [Option.map_some, hg, isScratchMem]
+  cases td.address <;> rfl
+
+theorem offsetsOf_length (ts : List TensorD) (all : List Nat) : (offsetsOf ts all).length = all.length := by
+  simp [offsetsOf]
+
+theorem planProblems_nil (d : Desc) (maps : List (List Nat)) (rels : List (Rel × Nat)) (bs : List (List Nat)) (hr : RelsOk maps rels)
+    (hts : ∀ all ∈ maps, ∀ g ∈ all, ∃ td, d.tensors[g]? = some td)
+    (hb : (offlineAlloc d.tensors maps).mapM i32le = .ok bs) : planProblems d rels bs.flatten = [] := by
+  obtain ⟨hv, hlen⟩ := le32_roundtrip _ _ hb
+  have hsnd := relsOk_snd hr
+  have hrl : rels.length = maps.length := (List.Forall₂.length_eq hr).symm
+  have hofl : (maps.map (offsetsOf d.tensors)).flatten.length = (maps.map List.length).sum := by
+    rw [List.length_flatten, List.map_map]
+    congr 1
+    apply List.map_congr_left
+    intro a _
+    exact offsetsOf_length _ _
+  have hhead : (offlineAlloc d.tensors maps).take 3 = [0, (rels.length : Int), (((maps.map List.length).sum : Nat) : Int)] := by
+    rw [hrl]; rfl
+  have hoal : (offlineAlloc d.tensors maps).length = 3 + (maps.map List.length).sum := by
+    unfold offlineAlloc
+    rw [List.length_append, hofl]
+    simp only [List.length_cons, List.length_nil]
+  unfold planProblems
+  dsimp only
+  rw [hv, hlen, relsOk_sum hr]
+  apply List.append_eq_nil_iff.mpr
+  constructor
+  · rw [hhead, hoal]
+    simp
+  · rw [List.flatMap_eq_nil_iff]
+    rintro ⟨⟨r, n⟩, k⟩ hk
+    have hk' : rels[k]? = some (r, n) := List.mem_zipIdx_iff_getElem?.mp hk
+    obtain ⟨all, hall, _, hp⟩ := relsOk_get hr k r n hk'
+    have hbase : (rels.take k).map (·.2) = (maps.take k).map List.length := by
+      rw [List.map_take, hsnd, ← List.map_take]
+    dsimp only
+    rw [hbase, List.filterMap_eq_nil_iff]
+    rintro ⟨g, i⟩ hgi
+    have hig : all[i]? = some g := hp (g, i) hgi
+    obtain ⟨td, htd⟩ := hts all (List.mem_of_getElem? hall) g (List.mem_of_getElem? hig)
+    have ho := offsetsOf_get d.tensors all i g td hig htd
+    have hfl := flatten_map_get (offsetsOf d.tensors) (offsetsOf_length d.tensors) maps k all hall i _ ho
+    have hidx : (offlineAlloc d.tensors maps)[3 + ((maps.take k).map List.length).sum + i]? =
+        some (if isScratchMem td then td.address.getD 0 else -1) := by
+      have e : 3 + ((maps.take k).map List.length).sum + i = (((maps.take k).map List.length).sum + i) + 1 + 1 + 1 := by omega
+      rw [e]
+      unfold offlineAlloc
+      simp only [List.cons_append, List.nil_append, List.getElem?_cons_succ]
+      exact hfl
+    dsimp only
+    rw [htd, hidx]
+    simp
+
+/-- how an entry the checker expects and an entry the writer hands to `assemble` correspond -/
+def MetaRel (d : Desc) (maps : List (List Nat)) (e : Bytes × Option (Option Data)) (mw : MetaW) : Prop :=
+  mw.name = e.1 ∧ (∀ data, e.2 = some data → mw.data = data) ∧
+  (e.2 = none → ∃ bs, (offlineAlloc d.tensors maps).mapM i32le = .ok bs ∧ mw.data = some (.raw bs.flatten))
+
+theorem metadataToWrite_rel (d : Desc) (maps : List (List Nat)) (metas : List MetaW) (h : metadataToWrite d maps = .ok metas) :
+    List.Forall₂ (MetaRel d maps) (expectedMeta d) metas := by
+  have hbase : List.Forall₂ (MetaRel d maps)
+      (d.metadata.map (fun x => (x.name, some x.data)) ++ [(velaVersionName, some (some (.raw d.version)))])
+      (d.metadata.map (fun m => ({ name := m.name, data := m.data } : MetaW)) ++ [{ name := velaVersionName, data := some (.raw d.version) }]) := by
+    apply List.rel_append
+    · rw [List.forall₂_map_left_iff, List.forall₂_map_right_iff, List.forall₂_same]
+      intro x _
+      refine ⟨rfl, ?_, ?_⟩
+      · intro data hd
+        simp only [Option.some.injEq] at hd
+        exact hd
+      · intro hd; simp at hd
+    · refine List.Forall₂.cons ⟨rfl, ?_, ?_⟩ List.Forall₂.nil
+      · intro data hd
+        simp only [Option.some.injEq] at hd
+        exact hd
+      · intro hd; simp at hd
+  unfold metadataToWrite at h
+  dsimp only at h
+  unfold expectedMeta
+  by_cases hc : (d.metadata.any fun m => m.nameIsBytes && m.name == omaName) = true
+  · rw [if_pos hc] at h
+    rw [if_pos hc]
+    simp only [pure, Except.pure, Except.ok.injEq] at h
+    subst h
+    simpa using hbase
+  · rw [if_neg hc] at h
+    rw [if_neg hc]
+    obtain ⟨bytes, hb, h⟩ := bind_ok h
+    simp only [pure, Except.pure, Except.ok.injEq] at h
+    subst h
+    refine List.rel_append hbase (List.Forall₂.cons ⟨rfl, ?_, ?_⟩ List.Forall₂.nil)
+    · intro data hd; simp at hd
+    · intro _; exact ⟨bytes, hb, rfl⟩
+
+theorem assemble_metadata_get (d : Desc) (opcodes : List OpCodeT) (sgs : List SubGraphT) (st : St) (metas : List MetaW) (i : Nat)
+    (f : MetadataT) (h : (assemble d opcodes sgs st metas).metadata[i]? = some f) :
+    ∃ mw, metas[i]? = some mw ∧ f.name = some mw.name ∧
+      (assemble d opcodes sgs st metas).buffers[f.buffer]? = some { data := mw.data } := by
+  simp only [assemble, List.getElem?_map, List.getElem?_zipIdx] at h
+  cases hmw : metas[i]? with
+  | none => simp [hmw] at h
+  | some mw =>
+    simp only [hmw, Option.map_some, Option.some.injEq] at h
+    subst h
+    refine ⟨mw, rfl, rfl, ?_⟩
+    simp only [assemble, List.getElem?_map, Nat.zero_add]
+    rw [List.getElem?_append_right (by omega)]
+    simp [hmw]
+
+theorem entryProblems_data (d : Desc) (m : ModelT) (rels : List (Rel × Nat)) (e : Bytes × Option (Option Data)) (f : MetadataT)
+    (b : BufferT) (data : Option Data) (hn : f.name = some e.1) (hb : m.buffers[f.buffer]? = some b) (he : e.2 = some data)
+    (hd : b.data = data) : entryProblems d m rels e f = [] := by
+  unfold entryProblems
+  simp [hb, he, hn, hd]
+
+theorem entryProblems_plan (d : Desc) (m : ModelT) (rels : List (Rel × Nat)) (e : Bytes × Option (Option Data)) (f : MetadataT)
+    (b : BufferT) (bytes : List Nat) (hn : f.name = some e.1) (hb : m.buffers[f.buffer]? = some b) (he : e.2 = none)
+    (hd : b.data = some (.raw bytes)) (hp : planProblems d rels bytes = []) : entryProblems d m rels e f = [] := by
+  unfold entryProblems
+  simp [hb, he, hn, hd, hp]
+
+theorem metadataProblems_write (d : Desc) (enum : List Code) (m : ModelT) (h : writeWith d enum = .ok m)
+    (subs : List PSub) (hs : (subgraphsToWrite d).mapM (prepSub d.tensors) = .ok subs)
+    (rels : List (Rel × Nat)) (hr : RelsOk (subs.map (sgAll d.tensors)) rels) : metadataProblems d m rels = [] := by
+  obtain ⟨subs', opcodes, st, metas, h1, _, _, h4, hm, acc, _⟩ := write_facts d enum m h
+  have hsub : subs' = subs := by rw [hs] at h1; exact (Except.ok.inj h1).symm
+  subst hsub
+  rw [acc.maps_eq] at h4
+  generalize hmaps : subs'.map (sgAll d.tensors) = maps at h4 hr acc
+  have hts : ∀ all ∈ maps, ∀ g ∈ all, ∃ td, d.tensors[g]? = some td := by
+    intro all hall g hg
+    obtain ⟨k, hk⟩ := List.getElem?_of_mem hall
+    have hk1 : k < maps.length := (List.getElem?_eq_some_iff.mp hk).1
+    have hk2 : k < m.subgraphs.length := by rw [← acc.len]; exact hk1
+    obtain ⟨i, hi⟩ := List.getElem?_of_mem hg
+    obtain ⟨td, _, htd, _⟩ := (acc.tensors k all _ hk (List.getElem?_eq_getElem hk2)).2 i g hi
+    exact ⟨td, htd⟩
+  have hrel := metadataToWrite_rel d maps metas h4
+  have hlen : m.metadata.length = (expectedMeta d).length := by
+    rw [hm]
+    simp [assemble, hrel.length_eq]
+  rw [metadataProblems_eq]
+  apply List.append_eq_nil_iff.mpr
+  refine ⟨by simp [hlen], ?_⟩
+  rw [List.flatMap_eq_nil_iff]
+  rintro ⟨e, f⟩ hef
+  obtain ⟨i, hi⟩ := List.getElem?_of_mem hef
+  obtain ⟨hie, hif⟩ := List.getElem?_zip_eq_some.mp hi
+  rw [hm] at hif
+  obtain ⟨mw, hmw, hfn, hbuf⟩ := assemble_metadata_get d opcodes m.subgraphs st metas i f hif
+  have hbuf' : m.buffers[f.buffer]? = some { data := mw.data } := by rw [hm]; exact hbuf
+  obtain ⟨r1, r2, r3⟩ := forall₂_getElem? hrel i e mw hie hmw
+  rw [r1] at hfn
+  dsimp only
+  cases he : e.2 with
+  | some data => exact entryProblems_data d m rels e f _ data hfn hbuf' he (r2 data he)
+  | none =>
+    obtain ⟨bs, hbs, hdat⟩ := r3 he
+    exact entryProblems_plan d m rels e f _ bs.flatten hfn hbuf' he hdat (planProblems_nil d maps rels bs hr hts hbs)
+
 end VelaVerif.Tflite.Spec
